@@ -51,3 +51,42 @@ pub mod wal {
 		repair_corrupted_wal_segment(dir, segment_id).map_err(|e| e.to_string())
 	}
 }
+
+/// Conflict oracle access (C04): the real `CommitOracle`, keys as byte strings.
+pub mod oracle {
+	use crate::oracle::CommitOracle;
+
+	pub struct Oracle(CommitOracle);
+
+	impl Default for Oracle {
+		fn default() -> Self {
+			Self::new()
+		}
+	}
+
+	impl Oracle {
+		pub fn new() -> Self {
+			Oracle(CommitOracle::new())
+		}
+		/// "ok" | "retry" | "conflict"
+		pub fn check(&self, keys: &[Vec<u8>], start_seq: u64) -> &'static str {
+			match self.0.check(keys.iter().map(|k| k.as_slice()), start_seq) {
+				Ok(()) => "ok",
+				Err(crate::error::Error::TransactionRetry) => "retry",
+				Err(crate::error::Error::TransactionWriteConflict) => "conflict",
+				Err(_) => "other",
+			}
+		}
+		pub fn publish(&self, keys: &[Vec<u8>], seq: u64, count: u64, oldest_active: u64) {
+			self.0.publish(keys.iter().map(|k| k.as_slice()), seq, count, oldest_active)
+		}
+		pub fn rollback(&self, keys: &[Vec<u8>], my_seq: u64) {
+			self.0.rollback(keys.iter().map(|k| k.as_slice()), my_seq)
+		}
+		pub fn reset_for_restore(&self, max_seq: u64) {
+			self.0.reset_for_restore(max_seq)
+		}
+	}
+
+	pub const GC_INTERVAL: u32 = crate::oracle::GC_INTERVAL;
+}
